@@ -22,7 +22,8 @@ Mirrors, as the code exists in `/repo`:
   opened in append mode, every record goes to the end.  In-memory backend: every handle's
   `MemFile` has its own write position (initialised to the length at creation, reset to 0 by that
   handle's own truncation), a write overwrites from that position and zero-fills a gap; replay
-  stops at the first position that does not start a whole record.
+  stops at the first position that does not start a whole record.  `Wal::open` (every new handle)
+  first cuts the file back to that valid prefix.
 
 Not modelled (abstracted): the order of documents inside a new segment (`BTreeMap` order; nothing
 observable here depends on it), the set representation of `deleted_docs` (sorted, de-duplicated in
@@ -125,6 +126,22 @@ def Log.clear {ι δ : Type} : Log ι δ → Log ι δ
   | .fs _ => .fs []
   | .mem _ => .mem []
 
+/-- byte length of the valid prefix (`Wal::scan(..).1`): total size of the whole records `parse`
+accepts -/
+def parseLen {ι δ : Type} : Nat → List (Cell ι δ) → Nat
+  | 0, _ => 0
+  | _ + 1, [] => 0
+  | _ + 1, .zero :: _ => 0
+  | fuel + 1, .byte _ ser size off :: cs =>
+    if off = 0 ∧ 1 ≤ size ∧ restMatches ser (size - 1) 1 cs = true then
+      size + parseLen fuel (cs.drop (size - 1))
+    else 0
+
+/-- `Wal::open`: the log is cut back to its valid prefix before a new handle appends -/
+def Log.openCut {ι δ : Type} : Log ι δ → Log ι δ
+  | .fs ops => .fs ops
+  | .mem cells => .mem (cells.take (parseLen cells.length cells))
+
 /-- `Wal::last_pending_ops` (no commit marker is ever at rest in the log, see header) -/
 def Log.pending {ι δ : Type} : Log ι δ → List (Op ι δ)
   | .fs ops => ops
@@ -166,7 +183,8 @@ def Spec.init {ι δ : Type} (mem : Bool) : Spec.St ι δ :=
 
 def Spec.step {ι δ : Type} [DecidableEq ι] (proj : δ → δ) (s : Spec.St ι δ) : Call ι δ → Spec.St ι δ
   | .newWriter h =>
-    { s with handles := (h, { queue := s.log.pending, pos := s.log.len }) :: alDel s.handles h }
+    { s with log := s.log.openCut,
+             handles := (h, { queue := s.log.pending, pos := s.log.openCut.len }) :: alDel s.handles h }
   | .add h i d size =>
     match alGet s.handles h with
     | none => s
@@ -322,9 +340,9 @@ def compact {ι δ : Type} (cfg : Cfg δ) (s : St ι δ) : St ι δ × Res :=
 
 def step {ι δ : Type} [DecidableEq ι] (cfg : Cfg δ) (s : St ι δ) : Call ι δ → St ι δ × Res
   | .newWriter h =>
-    ({ s with handles :=
+    ({ s with log := s.log.openCut, handles :=
         (h, { queue := s.log.pending, live := load s.segs, liveGen := maxGen s.segs,
-              pos := s.log.len }) :: alDel s.handles h }, .ok)
+              pos := s.log.openCut.len }) :: alDel s.handles h }, .ok)
   | .add h i d size =>
     match alGet s.handles h with
     | none => (s, .noHandle)
